@@ -418,8 +418,11 @@ func (s *FakeServer) handle(nc net.Conn, st *fakeConnState, req *base.Request, w
 					}
 					pk := rtpBytes(96, uint16(n), 0x3000)
 					b = append([]byte{0x24, byte(ch), byte(len(pk) >> 8), byte(len(pk))}, pk...)
-				default:
+				case "OPTIONS", "":
 					b = []byte(fmt.Sprintf("OPTIONS rtsp://127.0.0.1/ RTSP/1.0\r\nCSeq: %d\r\n\r\n", 100000+n))
+				default: // another method (the client only answers OPTIONS), two requests in one write
+					one := fmt.Sprintf("%s rtsp://127.0.0.1/ RTSP/1.0\r\nCSeq: %d\r\n\r\n", kind, 100000+n)
+					b = []byte(one + one)
 				}
 				if write(b) != nil || !s.sleep(gap) {
 					return
